@@ -194,7 +194,11 @@ func detCheck(fs []srcFile, globals data.Map, dataByTmpl map[string]string, kind
 			Want: "identical observations",
 		})
 	}
-	for rep := 2; rep <= 5; rep++ {
+	reps := 5
+	if strings.HasPrefix(first["accept"], "ERR") {
+		reps = 40 // a rejected bundle is observed by its error text only (cheap): more chances for a map order or a schedule to show
+	}
+	for rep := 2; rep <= reps; rep++ {
 		report("repetition", detObserve(fs, globals, dataByTmpl, kind))
 	}
 	if len(fs) >= 2 && len(fs) <= 4 {
@@ -223,8 +227,8 @@ func init() {
 	}
 	register(&Prop{
 		ID: "C13det",
-		Rule: "the implementation against itself: every generated bundle (valid all-feature bundles with >= 7 ES6 imports, map literals with >= 4 keys, messages with colliding placeholder names; and the same bundles with ONE injected checker or syntax error) is observed " +
-			"5 times in-process, once in another process, and under every permutation of the file insertion order (2..4 files, exhaustively): accept/reject + error text, message ids + placeholder names, rendered output of every template, JavaScript of every file x {ES5, ES6} x {no bundle, bundle} must be identical; " +
+		Rule: "the implementation against itself: every generated bundle (valid all-feature bundles with >= 7 ES6 imports, map literals with >= 4 keys, messages with colliding placeholder names; and the same bundles with ONE injected checker or syntax error, with one error that names several params, with independent errors in 2-3 files) is observed " +
+			"5 times in-process (40 times when rejected), once in another process, and under every permutation of the file insertion order (2..4 files, exhaustively): accept/reject + error text, message ids + placeholder names, rendered output of every template, JavaScript of every file x {ES5, ES6} x {no bundle, bundle} must be identical; " +
 			"non-trivial = bundle has >= 2 files or a message or a map literal",
 		Gen: genC13det,
 		Oracle: func(c *Case, impl string) *Viol {
@@ -268,11 +272,35 @@ func genC13det(g *G) {
 		{"syntax-unknown-directive-arg", func(r *RNG, fs []srcFile) ([]srcFile, bool) { return bodySite(r, fs, "{1 +}") }},
 		{"syntax-bad-command", func(r *RNG, fs []srcFile) ([]srcFile, bool) { return bodySite(r, fs, "{/foreach}") }},
 		{"undefined-global", func(r *RNG, fs []srcFile) ([]srcFile, bool) { return bodySite(r, fs, "{NO_SUCH_GLOBAL}") }},
+		// ONE error whose text names several things: the text must not depend on a map's iteration order
+		{"several-unused-params", func(r *RNG, fs []srcFile) ([]srcFile, bool) {
+			return replaceFirstFrom(r, fs, "/**\n", "/**\n * @param? zq1\n * @param? zq2\n * @param? zq3\n * @param? zq4\n * @param? zq5\n")
+		}},
 		{"duplicate-template", func(r *RNG, fs []srcFile) ([]srcFile, bool) {
 			out := append([]srcFile(nil), fs...)
 			out[0].content += "\n{template .t0}dup{/template}\n"
 			return out, true
 		}},
+	}
+	// independent errors in two or three files: which one is reported may depend on the insertion order of the
+	// files, never on the repetition (or on a schedule)
+	brokenFiles := func(r *RNG, fs []srcFile) ([]srcFile, bool) {
+		if len(fs) < 2 {
+			return nil, false
+		}
+		out := append([]srcFile(nil), fs...)
+		snips := []string{"{if $x", "{1 +}", "{/foreach}", "{print 'unterminated}", "{call}", "{$}"}
+		for k := range out {
+			if k >= 3 {
+				break
+			}
+			one, ok := bodySite(r, []srcFile{out[k]}, snips[r.Intn(len(snips))])
+			if !ok {
+				return nil, false
+			}
+			out[k] = one[0]
+		}
+		return out, true
 	}
 	for i := 0; i < n; i++ {
 		b := bg.bundle()
@@ -294,6 +322,11 @@ func genC13det(g *G) {
 			}
 		}
 		jobs = append(jobs, job{fs, jsGlobalsFull(), dataBy, i % 2, note, "valid", nt})
+		if g.R.Intn(6) == 0 {
+			if m, ok := brokenFiles(g.R, fs); ok {
+				jobs = append(jobs, job{m, jsGlobalsFull(), dataBy, 0, note + " +broken-files", "several-errors:broken-files", nt})
+			}
+		}
 		// the same bundle with one injected error
 		if g.R.Intn(2) == 0 {
 			all := append(append([]injector(nil), injectors...), syntaxInj...)
@@ -314,7 +347,7 @@ func genC13det(g *G) {
 			defer wg.Done()
 			defer func() { <-sem }()
 			j := jobs[i]
-			expects[i] = detCheck(j.fs, j.globals, j.dataBy, j.kind, j.note, strings.HasSuffix(j.class, ":unused-param"))
+			expects[i] = detCheck(j.fs, j.globals, j.dataBy, j.kind, j.note, strings.HasPrefix(j.class, "several-errors:"))
 		}(i)
 	}
 	wg.Wait()
